@@ -165,9 +165,69 @@ def gen_cases(ctx):
         if (not special) and idx % 11 == 10 and idx not in (1, 2):
             k = 0                                                                 # no time series: no daily file, no dailyout_conf.yml
             earlier = ()
-        cases.append({"idx": idx, "rotmode": rotmode, "cropcsv": cropcsv, "pfout": pfcols, "mgmt": mgmt, "special": special, "peryear": peryear, "datefmt": datefmt, "earlier": earlier, "sy": sy, "start": start, "end": end, "ann": ann, "eff": eff, "k": k, "csv": csv, "rot": rot,
+        cases.append({"idx": idx, "sweep": None, "rotmode": rotmode, "cropcsv": cropcsv, "pfout": pfcols, "mgmt": mgmt, "special": special, "peryear": peryear, "datefmt": datefmt, "earlier": earlier, "sy": sy, "start": start, "end": end, "ann": ann, "eff": eff, "k": k, "csv": csv, "rot": rot,
                       "daily": daily, "yearly": yearly, "crop": crop, "spec": (dspec, yspec, cspec), "unsupported": unsupported})
+    if not ctx.thorough or True:
+        cases += sweep_cases(random.Random(ctx.seed * 7919 + 23), len(cases))
     return cases
+
+
+def sweep_cases(rnd, idx0):
+    """configuration sweep: short runs (two harvested crops, one year change, no leap year) with ONE configuration key or one pair of
+    interacting switches away from the base: interval 1, fixed width, long German dates, txt rotation file, no optional output file"""
+    out = []
+
+    def add(name, **kw):
+        sy = kw.pop("sy", None) or rnd.choice([1981, 1997, 2001, 2009, 2013, 2021])
+        start = D(sy, rnd.randrange(3, 5), rnd.randrange(1, 28))
+        rot = [("SM", None, start), ("SM", start + datetime.timedelta(days=rnd.randrange(10, 40)), D(sy, 9, rnd.randrange(5, 28))),
+               ("SOY", D(sy + 1, 4, rnd.randrange(10, 28)), D(sy + 1, 9, rnd.randrange(5, 28)))]
+        end = D(sy + 1, 11 if kw.get("auto") else rnd.randrange(10, 12), rnd.randrange(1, 28))
+        ann = D(sy + 1, 6, rnd.randrange(1, 28))
+        datefmt = kw.pop("datefmt", "DateDElong")
+        daily, dspec = _cols(rnd, G_VARS, ["AKTUELL"], 2)
+        yearly, yspec = _cols(rnd, G_VARS, ["AKTUELL"], 1)
+        crop, cspec = _cols(rnd, C_VARS, ["Crop", "HarvestYear", "HarvestDOY"] + (["SowDate"] if datefmt != "DateDElong" else []), 1)
+        c = {"idx": idx0 + len(out), "sweep": name, "rotmode": "contiguous", "cropcsv": False, "pfout": None, "mgmt": False, "special": None,
+             "peryear": False, "datefmt": datefmt, "earlier": (), "sy": sy, "start": start, "end": end, "ann": ann, "k": 1, "csv": False, "rot": rot,
+             "daily": daily, "yearly": yearly, "crop": crop, "spec": (dspec, yspec, cspec), "unsupported": False}
+        if kw.get("ann") == "end":
+            kw["ann"] = end
+        elif kw.get("ann") == "start":
+            kw["ann"] = D(sy + 1, start.month, start.day)
+        elif kw.get("ann"):
+            kw["ann"] = D(sy + 1, kw["ann"][1], kw["ann"][0])
+        if kw.get("pfout"):
+            kw["pfout"] = _cols(rnd, G_VARS, ["AKTUELL"], 2)[0]
+        c.update(kw)
+        c["eff"] = c["ann"] + ONE if c["ann"] >= c["end"] else c["end"]
+        out.append(c)
+    for k in (0, 2, 7, 30, 365, 400):
+        add("OutputIntervall=%d" % k, k=k)
+    add("ResultFileFormat=1", csv=True)
+    add("ResultFileExt=out", ext="out")
+    add("ResultFileFormat=1 ResultFileExt=txt", csv=True, ext="txt")
+    for nm, a in (("0101", (1, 1)), ("3112", (31, 12)), ("<end date>", "end"), ("<day and month of the start>", "start"), ("0103", (1, 3))):
+        add("AnnualOutputDate=%s" % nm, ann=a)
+    add("pfout_conf.yml", pfout=True)
+    add("pfout_conf.yml ResultFileFormat=1", pfout=True, csv=True)
+    add("pfout_conf.yml OutputIntervall=0", pfout=True, k=0)
+    add("ManagementEvents=1", mgmt=True)
+    add("ManagementEvents=1 ResultFileFormat=1", mgmt=True, csv=True)
+    add("ManagementEvents=1 pfout_conf.yml", mgmt=True, pfout=True)
+    add("CropFileFormat=csv", cropcsv=True)
+    add("CropFileFormat=csv interleaved", cropcsv=True, rotmode="interleaved")
+    add("rotation interleaved", rotmode="interleaved")
+    add("WeatherFileFormat=0", peryear=True)
+    for fmt, sy, div in (("DateDEshort", 2021, 30), ("DateENshort", 1981, 70), ("DateENlong", None, 50), ("DateDEshort", 2013, 15), ("DateENshort", 1997, 97)):
+        add("Dateformat=%s DivideCentury=%d" % (fmt, div), datefmt=fmt, sy=sy, divide=div)
+    for sw in ("AutoFertilization", "AutoIrrigation"):
+        add("%s=1" % sw, auto={sw: 1})
+    # the automan.txt of the base project spells its dates month-day: these lines run with Dateformat DateENlong
+    add("AutoSowingHarvest=1 AutoHarvest=1 ManagementEvents=1 DateENlong", auto={"AutoSowingHarvest": 1, "AutoHarvest": 1}, mgmt=True, datefmt="DateENlong")
+    add("AutoHarvest=1 ManagementEvents=1 DateENlong", auto={"AutoHarvest": 1}, mgmt=True, datefmt="DateENlong")
+    add("AutoSowingHarvest=1 ManagementEvents=1 DateENlong", auto={"AutoSowingHarvest": 1}, mgmt=True, datefmt="DateENlong")
+    return out
 
 
 def _describe(cs):
@@ -176,7 +236,7 @@ def _describe(cs):
                [str(h) for _, _, h in cs["rot"]], len(cs["daily"]), len(cs["yearly"]), len(cs["crop"]),
                " rotation file: %s, plot's lines %s" % ("csv" if cs.get("cropcsv") else "txt", cs.get("rotmode", "contiguous"))
                + (" pfout_conf.yml=%d columns" % len(cs["pfout"]) if cs.get("pfout") else "") + (" ManagementEvents=1" if cs.get("mgmt") else "")
-               + (" no dailyout_conf.yml" if cs["k"] == 0 else "")))
+               + (" no dailyout_conf.yml" if cs["k"] == 0 else "") + ((" [sweep: %s]" % cs["sweep"]) if cs.get("sweep") else "")))
 
 
 def _parse(path, cs, cols):
@@ -243,9 +303,12 @@ def _run(ctx):
         wcfg, wfolder = (wcfg0, "w0") if c.get("peryear") else (wcfg1, "w")
         if c.get("special"):
             wcfg, wfolder = wspecial[c["special"]]
-        cfg = dict(wcfg, WeatherFolder=wfolder, StartYear=c["sy"], EndDate=wxlib.fdate(c["end"], dfm), Dateformat=dfm, DivideCentury=50,
+        cfg = dict(wcfg, WeatherFolder=wfolder, StartYear=c["sy"], EndDate=wxlib.fdate(c["end"], dfm), Dateformat=dfm, DivideCentury=c.get("divide", 50),
                    AnnualOutputDate=wxlib.fannual(c["ann"], dfm), OutputIntervall=c["k"],
                    ResultFileFormat=1 if c["csv"] else 0, ETpot=rnd.choice([1, 2, 3, 4]))
+        if c.get("ext"):
+            cfg["ResultFileExt"] = c["ext"]
+        cfg.update(c.get("auto") or {})
         opts = dict(rot_mode=c.get("rotmode", "contiguous"), crop_csv=c.get("cropcsv", False), pfout=c.get("pfout"), management=c.get("mgmt", False))
         # a used result folder: one or two earlier runs into the SAME folder (same file names), longer / more records or
         # the same; the files must afterwards hold the records of the last run only
@@ -265,7 +328,7 @@ def _run(ctx):
     obs = []
     for c, run in zip(cases, runs):
         rdir = os.path.join(root, "R", "r%03d" % c["idx"])
-        ext = "csv" if c["csv"] else "RES"
+        ext = c.get("ext") or ("csv" if c["csv"] else "RES")
         o = {}
         present = sorted(os.listdir(rdir)) if os.path.isdir(rdir) else []
         for tag, cols in (("V", c["daily"]), ("Y", c["yearly"]), ("C", c["crop"]), ("P", c.get("pfout") or [])):
@@ -283,11 +346,11 @@ def _run(ctx):
     return _cache["runs"]
 
 
-def _dates(recs, datefmt="DateDElong"):
+def _dates(recs, datefmt="DateDElong", split=50):
     """day numbers of the first column (AKTUELL) of the records; None when one does not parse"""
     out = []
     for f, ln in recs:
-        d = wxlib.parse_out_date(f[0], datefmt) if f else None
+        d = wxlib.parse_out_date(f[0], datefmt, split) if f else None
         if d is None:
             return None
         out.append(daynum(d))
@@ -313,10 +376,12 @@ def correspond(ctx):
         return c
     ev_cases, fl_cases, ev_idx, fl_idx = [], [], [], []
     for cs, run, o in zip(cases, runs, obs):
+        if _autoharv(cs):
+            continue                      # sowing / harvest decided by the run: the oracle ties the crop records to the management events
         if any(o[t] is None for t in "VYC"):
             c.mismatches.append({"kind": "result-file-missing", "case": _describe(cs)})
             continue
-        dd, yd = _dates(o["V"], cs.get("datefmt", "DateDElong")), _dates(o["Y"], cs.get("datefmt", "DateDElong"))
+        dd, yd = _dates(o["V"], cs.get("datefmt", "DateDElong"), cs.get("divide", 50)), _dates(o["Y"], cs.get("datefmt", "DateDElong"), cs.get("divide", 50))
         if dd is None or yd is None:
             c.mismatches.append({"kind": "record-date-unreadable", "case": _describe(cs)})
             continue
@@ -443,6 +508,11 @@ def _annual_expected(cs):
     return out
 
 
+def _autoharv(cs):
+    a = cs.get("auto") or {}
+    return bool(a.get("AutoSowingHarvest") or a.get("AutoHarvest"))
+
+
 def _read_rotation(cs):
     """[(crop, sowing date | None, harvest date)] of the plot's field, read back from the project's rotation file"""
     dfm = cs.get("datefmt", "DateDElong")
@@ -455,7 +525,7 @@ def _read_rotation(cs):
         en, short = dfm.startswith("DateEN"), dfm.endswith("short")
         a, b, y = int(t[0:2]), int(t[2:4]), int(t[4:])
         if short:
-            y = 2000 + y if y < 50 else 1900 + y
+            y = 2000 + y if y < cs.get("divide", 50) else 1900 + y
         dd, mm = (b, a) if en else (a, b)
         return D(y, mm, dd)
     out = []
@@ -505,7 +575,7 @@ def oracle(ctx, search):
         fails.append(Fail(key="harness-crash", what="the simulator aborted (log.Fatal/panic) on a generated configuration",
                           stderr=err[-800:], completed_runs=len(runs)))
         return fails
-    nrec = npre = nmgmt = nhdr = 0
+    nrec = npre = nmgmt = nhdr = nauto = 0
     for cs, run, o in zip(cases, runs, obs):
         desc = _describe(cs)
         if not run["success"]:
@@ -515,7 +585,7 @@ def oracle(ctx, search):
         # ---- daily
         want = [date_of(z) for z in range(daynum(cs["start"]), daynum(cs["eff"]) + 1) if cs["k"] > 0 and z % cs["k"] == 0]
         dfm = cs.get("datefmt", "DateDElong")
-        got = [wxlib.parse_out_date(f[0], dfm) if f else None for f, ln in o["V"]]
+        got = [wxlib.parse_out_date(f[0], dfm, cs.get("divide", 50)) if f else None for f, ln in o["V"]]
         if not cs["unsupported"] or cs["csv"]:
             if got != want:
                 i = next((i for i, (a, b) in enumerate(zip(got, want)) if a != b), min(len(got), len(want)))
@@ -526,7 +596,7 @@ def oracle(ctx, search):
                 fails.append(Fail(key="daily-order:%d" % cs["idx"], what="daily records not strictly increasing", case=desc))
         # ---- yearly
         wanty = _annual_expected(cs)
-        goty = [wxlib.parse_out_date(f[0], dfm) if f else None for f, ln in o["Y"]]
+        goty = [wxlib.parse_out_date(f[0], dfm, cs.get("divide", 50)) if f else None for f, ln in o["Y"]]
         if cs.get("special") == "runaway":
             # no civil year behind the counter any more: the yearly record is due whenever the day-of-year counter reaches the annual
             # day — every 8 days here — also after the 131st roll-over
@@ -554,6 +624,17 @@ def oracle(ctx, search):
         if [(a, c_) for a, b, c_ in filerot] != [(a, c_) for a, b, c_ in cs["rot"]]:
             fails.append(Fail(key="rotation-file-readback:%d" % cs["idx"], what="generator and read-back of the rotation file disagree", case=desc))
         wantc = [(crp, h) for crp, s, h in filerot[1:] if h <= cs["eff"]]
+        if _autoharv(cs):
+            # sowing / harvest decided by the run: one crop record per harvest event of the management file, dated like the event,
+            # and one harvest per rotation entry (the run ends after the latest harvest date of the last crop)
+            wantc, nauto = [], nauto + 1
+            for ln in (o["M"] or "").split("\n"):
+                t = ln.split(",") if "," in ln else ln.split()
+                if len(t) >= 4 and t[1].strip() == "harvest":
+                    wantc.append((t[3].strip(), wxlib.parse_out_date(t[0], dfm, cs.get("divide", 50))))
+            if [a for a, b in wantc] != [crp for crp, s_, h in filerot[1:]]:
+                fails.append(Fail(key="harvest-events:%d" % cs["idx"], what="management file: harvest events %s, the rotation file has the crops %s"
+                                  % ([(a, str(b)) for a, b in wantc], [crp for crp, s_, h in filerot[1:]]), case=desc))
         gotc = []
         for f, ln in o["C"]:
             try:
@@ -562,9 +643,9 @@ def oracle(ctx, search):
                 gotc.append((ln, None))
         # the sowing date column of the crop records: the rotation's sowing date in the configured date format
         sd = [j for j, col in enumerate(cs["crop"]) if col["VariableName"] == "SowDate"]
-        if sd and gotc == wantc:
+        if sd and gotc == wantc and not _autoharv(cs):
             sows = [s_ for crp, s_, h in cs["rot"][1:] if h <= cs["eff"]]
-            gots = [wxlib.parse_out_date(f[sd[0]], dfm) if len(f) > sd[0] else None for f, ln in o["C"]]
+            gots = [wxlib.parse_out_date(f[sd[0]], dfm, cs.get("divide", 50)) if len(f) > sd[0] else None for f, ln in o["C"]]
             if gots != sows:
                 fails.append(Fail(key="crop-date-column:%d" % cs["idx"], what="crop file sowing dates %s, rotation says %s"
                                   % ([f[sd[0]].strip() for f, ln in o["C"]][:6], [str(x) for x in sows][:6]), case=desc))
@@ -579,7 +660,7 @@ def oracle(ctx, search):
                               % (o["files"], sorted(exp_files)), case=desc))
         if "P" in exp_files and o["P"] is not None:
             wantp = [h - ONE for crp, s_, h in filerot[1:] if cs["start"] <= h - ONE <= cs["eff"]]
-            gotp = [wxlib.parse_out_date(f[0], dfm) if f else None for f, ln in o["P"]]
+            gotp = [wxlib.parse_out_date(f[0], dfm, cs.get("divide", 50)) if f else None for f, ln in o["P"]]
             npre += len(wantp)
             if gotp != wantp:
                 fails.append(Fail(key="pre-harvest-records:%d" % cs["idx"], what="pre-harvest file: records %s, expected the day before each harvest %s"
@@ -593,7 +674,7 @@ def oracle(ctx, search):
                 if os.environ.get("C05_DEBUG") and nmgmt < 6:
                     print("M:", repr(ln))
                 t = ln.split(",") if "," in ln else ln.split()
-                if wxlib.parse_out_date(t[0], dfm) is None or len(t) < 2 or t[1].strip() not in ("tillage", "irrigation", "sowing", "harvest", "fertilization", "fertilizer", "Sowing", "Harvest"):
+                if wxlib.parse_out_date(t[0], dfm, cs.get("divide", 50)) is None or len(t) < 2 or t[1].strip() not in ("tillage", "irrigation", "sowing", "harvest", "fertilization", "fertilizer", "Sowing", "Harvest"):
                     fails.append(Fail(key="management-line:%d" % cs["idx"], what="management file line is not 'date, event, attributes': %r" % ln[:120], case=desc))
                     break
         # ---- fields
@@ -623,6 +704,13 @@ def oracle(ctx, search):
     ctx.extra["oracle_pre_harvest_records_expected"] = npre
     ctx.extra["oracle_management_lines_checked"] = nmgmt
     ctx.extra["oracle_head_lines_checked"] = nhdr
+    sw = [(cs, run) for cs, run in zip(cases, runs) if cs.get("sweep")]
+    ctx.extra["configuration_sweep"] = {
+        "what": "short runs (two harvested crops, one year change) with one configuration key or one pair of interacting switches away from the "
+                "base (interval 1, fixed width, long German dates, txt rotation file, no optional output file); same oracles on every result file; "
+                "under automatic sowing/harvest the crop records are tied to the harvest events of the management file",
+        "lines": len(sw), "lines_run_ok": sum(1 for cs, run in sw if run["success"]), "automatic_harvest_lines": nauto,
+        "keys": [cs["sweep"] for cs, run in sw]}
     ctx.extra["run_set"] = {"rotation_file_layouts": sorted(set(c["rotmode"] + ("/csv" if c["cropcsv"] else "/txt") for c in cases)),
                             "with_pfout_conf": sum(1 for c in cases if c.get("pfout")), "without_daily_conf": sum(1 for c in cases if c["k"] == 0),
                             "with_management_file": sum(1 for c in cases if c.get("mgmt"))}
